@@ -321,6 +321,8 @@ type Field struct {
 type Struct struct {
 	Fields []*Field
 	Type   reflect.Type
+	TagCfg string // name of the struct tag holding the setting's name (StructTag option), "" = config
+	TagVal string // name of the struct tag holding the validators (ValidatorTag option), "" = validate
 }
 
 // build creates the reflect type.
@@ -353,9 +355,17 @@ func (s *Struct) build() {
 		if f.Required {
 			val = "required," + val
 		}
-		st := `config:"` + tag + `"`
+		tc, tv := "config", "validate"
+		if s.TagCfg != "" {
+			// under custom tag names the standard ones are decoys the library must not read
+			tc, tv = s.TagCfg, s.TagVal
+		}
+		st := tc + `:"` + tag + `"`
 		if f.Kind != KInline {
-			st += ` validate:"` + val + `"`
+			st += ` ` + tv + `:"` + val + `"`
+		}
+		if s.TagCfg != "" {
+			st += ` config:"decoy` + f.Name + `" validate:"min=1000000"`
 		}
 		fs = append(fs, reflect.StructField{Name: f.GoName, Type: t, Tag: reflect.StructTag(st)})
 	}
